@@ -106,6 +106,11 @@ func (a Alpha) Ops(n *engine.Node) []world.Op {
 		}
 	}
 	for _, r := range a.Rewards {
+		// x/distribution allocates fees in BeginBlock, before any transaction of the block: reward inflow is only
+		// offered as the first event of a block (gifts can arrive any time)
+		if r.K == world.KReward && !atBlockStart(n) {
+			continue
+		}
 		r.Class = ClsEnv
 		ops = append(ops, r)
 	}
@@ -191,3 +196,12 @@ func sortStrings(s []string) { sort.Strings(s) }
 type bigRat = big.Rat
 
 func newRat() *big.Rat { return new(big.Rat) }
+
+// atBlockStart: no transaction has run yet in the current block (seeds are built to end at a block start).
+func atBlockStart(n *engine.Node) bool {
+	if len(n.Trace) == 0 {
+		return true
+	}
+	k := n.Trace[len(n.Trace)-1].K
+	return k == world.KBlock || k == world.KReward
+}
